@@ -55,7 +55,12 @@ def jobs(prop, tier):
                   S("list_tx_sim", "list", 3, 40, 40), S("doc_tx_sim", "doc", 3, 30, 40)] if q else
                  [E("list_tx_edge", "list", 2), E("map_txb_edge", "map", 2), S("map_tx_sim", "map", 3, 400, 50),
                   S("list_tx_sim", "list", 3, 400, 50), S("doc_tx_sim", "doc", 3, 300, 50), S("counter_tx_sim", "counter", 3, 200, 50)])
-        return multi(tier) + extra
+        # the identifier operators of the specification bound to the code's functions point by point, and real
+        # histories for every pair of element identifiers that a separator-less key would confuse
+        def IDS(cfg, **kw):
+            return dict(mode="edge", cfg=cfg, kind="ids", n=0, rate=1.0, tool="idscheck", dump_module="OrdaIdsGrid.tla", prefix="IDS", **kw)
+        ids = [IDS("ids_points", shards=1), IDS("ids_pairs"), IDS("ids_ids"), IDS("ids_collide")]
+        return multi(tier) + extra + ids
     if prop == "C05":
         if q:
             return [SE("sync_basic_edge", 2, rate=0.1), SE("sync_sc_edge", 2, rate=0.1), SE("sync_3_edge", 3, rate=0.005),
